@@ -1179,8 +1179,8 @@ class ReftableRefsContainer(RefsContainer):
         except KeyError:
             current = None
 
-        old_ref_bytes = bytes(old_ref) if old_ref else None
-        if current != old_ref_bytes:
+        # old_ref None means "unconditionally", not "must not exist"
+        if old_ref is not None and current != bytes(old_ref):
             return False
 
         # Update ref
@@ -1222,8 +1222,8 @@ class ReftableRefsContainer(RefsContainer):
         except KeyError:
             current = None
 
-        old_ref_bytes = bytes(old_ref) if old_ref else None
-        if current != old_ref_bytes:
+        # old_ref None means "unconditionally", not "must not exist"
+        if old_ref is not None and current != bytes(old_ref):
             return False
 
         self._write_ref_update(bytes(name), REF_VALUE_DELETE, b"")
